@@ -36,6 +36,8 @@ class AdvSched(fakeos.Sched):
         self.k = 0
         self.rc = {}
         self.unrelated = unrelated
+        self.ns = 0
+        self.job_control = False
 
     def on_spawn(self, kernel, proc):
         hrun.snapshot_on_spawn(kernel, proc)
@@ -53,6 +55,17 @@ class AdvSched(fakeos.Sched):
         if len(running) == 1:
             return [running[0]]
         return [running[self.g.choose("exw%d" % self.n, len(running))]]
+
+    def stops_now(self, kernel, point, running):
+        if self.used >= self.budget or not self.job_control:
+            return []
+        self.ns += 1
+        if not self.g.flag("st%d" % self.ns):
+            return []
+        self._spend()
+        if len(running) == 1:
+            return [running[0]]
+        return [running[self.g.choose("stw%d" % self.ns, len(running))]]
 
     def deliver_now(self, kernel, point):
         if self.used >= self.budget:
@@ -78,12 +91,13 @@ class AdvSched(fakeos.Sched):
         return rc << 8
 
 
-def make(n, jobs_hi, budget, kinds=("run_command",), unrelated=False, orders="rev", line_level=False):
+def make(n, jobs_hi, budget, kinds=("run_command",), unrelated=False, orders="rev", line_level=False, job_control=False):
     def fn(g):
         specs = graphs.sym_graph(g, n, kinds, orders=orders)
         root = n - 1
         jobs = g.choose("jobs", jobs_hi) + 1
         sched = AdvSched(g, budget)
+        sched.job_control = job_control
         hook = None
         if line_level:
             # every executed line of utils/sigchld.py and of the executor's wait loop is a preemption point too
@@ -161,6 +175,8 @@ def make(n, jobs_hi, budget, kinds=("run_command",), unrelated=False, orders="re
                 g.goal("schedule deviates from eager delivery")
             if any(e[0] == "exit" and e[3] is None for e in k.events):
                 g.goal("unrelated child exits during the run")
+            if any(e[0] == "stop" for e in k.events):
+                g.goal("a task is stopped and continued")
             if any(e[0] == "exit" for e in k.events) and sched.used and any(
                     k.events[i][0] == "exit" and k.events[i + 1][0] == "exit" for i in range(len(k.events) - 1)):
                 g.goal("two exits before one delivery")
@@ -181,6 +197,10 @@ def spaces(tier):
     sp.append(Space("n2-unrelated-child-b2", make(2, 2, 2, unrelated=True),
                     "N<=2 run_command tasks plus one child of cond that is not a task (exits 0 or 7 at any point), jobs 1..2, <=2 deviations",
                     depth=7, goals=["unrelated child exits during the run"]))
+    sp.append(Space("n2-job-control-b1", make(2, 2, 1, job_control=True),
+                    "N<=2 run_command tasks, jobs 1..2, one deviation which may be: a running task is stopped (SIGSTOP) and later "
+                    "continued - the parent receives SIGCHLD for both - at any kernel-call boundary", depth=7,
+                    goals=["a task is stopped and continued"]))
     if tier == "thorough":
         sp.append(Space("n3-j3-b2", make(3, 3, 2),
                         "N=3 run_command tasks, jobs 1..3, <=2 schedule deviations", depth=9, tiers=("thorough",),
